@@ -74,7 +74,10 @@ def is_negation(a, b):
 def is_zero_sense(e):
     if isinstance(e, ast.Constant) and e.value == 0 and e.value is not False:
         return True
-    if isinstance(e, ast.Call) and ntext(e.func) in ('np.zeros', 'numpy.zeros'):
+    if isinstance(e, ast.Call) and ntext(e.func) in ('np.zeros', 'numpy.zeros', 'np.zeros_like', 'numpy.zeros_like'):
+        return True
+    if isinstance(e, ast.Call) and ntext(e.func) in ('np.full', 'numpy.full') and len(e.args) >= 2 and \
+            isinstance(e.args[1], ast.Constant) and e.args[1].value == 0 and e.args[1].value is not False:
         return True
     return False
 
@@ -262,6 +265,15 @@ def run(repo):
                 if ntext(ea[p]) != ntext(eb[p]):
                     problems.append('argument `%s` differs: %s vs %s' % (p, ntext(ea[p])[:40], ntext(eb[p])[:40]))
             for side, env in (('first', ea), ('second', eb)):
+                if 'sense' in env and isinstance(env['sense'], ast.Name):
+                    # a local holding the sense: every definition of it is judged; no definition, no verdict
+                    sdefs_ = [n_.value for n_ in walk_no_nested(fi.node) if isinstance(n_, ast.Assign) and
+                              any(isinstance(t_, ast.Name) and t_.id == env['sense'].id for t_ in n_.targets)]
+                    if not sdefs_:
+                        raise AnalysisError('%s: the sense `%s` of a split half is not a local the rule follows'
+                                            % (fi.fq, env['sense'].id))
+                    if all(is_zero_sense(d_) for d_ in sdefs_):
+                        continue
                 if 'sense' in env and not is_zero_sense(env['sense']):
                     problems.append('%s half has sense %s, not 0' % (side, ntext(env['sense'])[:30]))
             for site in (a, b):
